@@ -714,7 +714,8 @@ class MQTTBaseProtocol(Protocol):
             self.transport.abortConnection()
         log.debug("==> {packet:7}", packet="PINGREQ")
         self.transport.write(self._pingReq.pdu)
-        self._pingReq.alarm = self.callLater(self._pingReq.keepalive, doPingError)
+        if self._pingReq.alarm is None:
+            self._pingReq.alarm = self.callLater(self._pingReq.keepalive, doPingError)
 
     # ------------------------------------------------------------------------
 
